@@ -200,7 +200,7 @@ def eval_root(case):
     def fresh():
         st = SState(cache)
         for op in first_ops:
-            step(st, op)
+            with_alarm(20.0, step, st, op)
         return st
 
     def ops_for(st, hist):
@@ -287,9 +287,12 @@ def eval_fresh_differential(case):
     cache, hist = case
     warnings.simplefilter('ignore')
     st = SState(cache)
-    for op in hist:
-        with_alarm(20.0, step, st, op)
-    got = list(st.set)
+    try:
+        for op in hist:
+            with_alarm(20.0, step, st, op)
+        got = with_alarm(20.0, list, st.set)
+    except Capped:
+        return Res(capped=True, outcome='capped', viols=[{'kind': 'operation-did-not-terminate', 'history': list(hist), 'cache': cache}])
     f = rruleset(cache=cache)
     for role in ('rrule', 'exrule'):
         for n in st.members[role]:
@@ -297,7 +300,7 @@ def eval_fresh_differential(case):
     for role in ('rdate', 'exdate'):
         for n in st.members[role]:
             getattr(f, role)(make_date(n))
-    exp = list(f)
+    exp = with_alarm(20.0, list, f)
     viols = []
     if got != exp:
         viols.append({'kind': 'differs-from-freshly-built-set', 'history': list(hist), 'got': got[:5], 'expected': exp[:5]})
